@@ -166,10 +166,13 @@ func runPromGauge(c *core.Ctx) {
 		return
 	}
 	c.CountFuncs(4)
+	// the field holding the per-session subscription sets (`m` on the pinned tree): the
+	// receiver's field whose type is, or is a named form of, map[session]map[subscription]bool
+	setF := "recv." + promSetField(cm)
 	// helper: the set entry m[reqID][subID] for the message bound in the clause
 	entry := func(fn *ssa.Function, msgType string) string {
 		msgP := "p:" + fn.Params[2].Name()
-		return "recv.m[REQID(p:" + fn.Params[1].Name() + ")][" + msgP + ".SubscriptionID]"
+		return setF + "[REQID(p:" + fn.Params[1].Name() + ")][" + msgP + ".SubscriptionID]"
 	}
 	checkInc := func(fn *ssa.Function, msgType string) {
 		e := entry(fn, msgType)
@@ -278,26 +281,31 @@ func runPromGauge(c *core.Ctx) {
 		sid := "REQID(p:" + en.Params[1].Name() + ")"
 		okSub, okDel := false, false
 		for _, call := range gaugeCalls(en, "Sub") {
-			if strings.Contains(promPath(call.Call.Args[0]), "len(recv.m["+sid+"])") {
+			if strings.Contains(promPath(call.Call.Args[0]), "len("+setF+"["+sid+"])") {
 				okSub = true
 			}
 		}
-		for _, d := range mapDeletesOn(en, "recv.m") {
-			if promPath(d.Call.Args[1]) == sid {
+		// (the drop may sit in a method of the set's own type that session end calls)
+		an.Region(en, nil, func(o an.Occ) {
+			d, ok := o.In.(*ssa.Call)
+			if !ok {
+				return
+			}
+			if b, isB := d.Call.Value.(*ssa.Builtin); isB && b.Name() == "delete" && len(d.Call.Args) == 2 && promNorm(o.Path(d.Call.Args[0])) == setF && promNorm(o.Path(d.Call.Args[1])) == sid {
 				okDel = true
 			}
-		}
+		})
 		c.Check(okSub && okDel, nil, fname(c, en), "end", P.Pos(en.Pos()), "session end subtracts the number of still-open subscriptions and drops the session's set", fmt.Sprintf("session end does not release what the session still holds (Sub(len(set)): %v, delete(set): %v): the gauge drifts upwards with every disconnect", okSub, okDel))
 	}
 	// session start: a fresh set
 	{
 		sid := "REQID(p:" + st.Params[1].Name() + ")"
 		ok := false
-		for _, mu := range mapUpdatesOn(st, "recv.m") {
-			if promPath(mu.Key) == sid && strings.HasPrefix(promPath(mu.Value), "make:map") {
+		an.Region(st, nil, func(o an.Occ) {
+			if mu, isMU := o.In.(*ssa.MapUpdate); isMU && promNorm(o.Path(mu.Map)) == setF && promNorm(o.Path(mu.Key)) == sid && strings.HasPrefix(promPath(mu.Value), "make:map") {
 				ok = true
 			}
-		}
+		})
 		c.Check(ok, nil, fname(c, st), "start", P.Pos(st.Pos()), "session start creates the session's (empty) subscription set", "session start does not create the session's set: the first REQ panics on a nil map")
 	}
 }
@@ -628,9 +636,34 @@ func presence(k int) string {
 // subtracts the size of the session's set from.
 func subscriptionGauge(en *ssa.Function) string {
 	for _, call := range gaugeCalls(en, "Sub") {
-		if strings.Contains(promPath(call.Call.Args[0]), "len(recv.m[") {
+		if strings.Contains(promPath(call.Call.Args[0]), "len(recv."+promSetField(en)+"[") {
 			return promPath(call.Call.Value)
 		}
 	}
 	return ""
+}
+
+// promSetField: the name of the receiver's field of type map[K1]map[K2]bool (possibly a named map type).
+func promSetField(fn *ssa.Function) string {
+	if fn.Signature.Recv() == nil {
+		return "m"
+	}
+	t := fn.Signature.Recv().Type()
+	if p, ok := t.(*types.Pointer); ok {
+		t = p.Elem()
+	}
+	st, ok := t.Underlying().(*types.Struct)
+	if !ok {
+		return "m"
+	}
+	for i := 0; i < st.NumFields(); i++ {
+		if outer, ok := st.Field(i).Type().Underlying().(*types.Map); ok {
+			if inner, ok := outer.Elem().Underlying().(*types.Map); ok {
+				if b, ok := inner.Elem().Underlying().(*types.Basic); ok && b.Kind() == types.Bool {
+					return an.FieldNameHook(st, i)
+				}
+			}
+		}
+	}
+	return "m"
 }
